@@ -147,6 +147,121 @@ MODEL_BEH = {"refuse": "refuse", "close": "garbage", "garbage": "garbage", "garb
              "stall-caps": "stallex", "stall-close": "stallex", "noclose": "noclose"}
 
 
+# ------------------------------------------------------------------ hosts given as scripts
+# A host behaviour in general is a SCRIPT of what the host sends when (coq/Discover/Run.v [script]; the same text
+# goes to the Go harness, which plays it, and to the extracted model): an answer (delay, positive/negative) or
+# none for the first message and each request of the exchange, unsolicited traffic at listed times and/or
+# periodically for ever, a hang-up at some moment or never. The named behaviours above are silent special cases.
+SCRIPT_TIMEOUT_MS = 600      # probe timeout (= read deadline) used with scripted hosts
+CHAT_MS = 100                # period of "chatty" unsolicited traffic: well below the read deadline
+SIG_CHATTY = "chatty-host-blocks-probe"
+
+
+def script(h="0+", v="0+", sv="n", c="0+", id=1, k="0+", x="0+", xo=0, fin=1, hg="-", chat="-", p="-", ck="ka", tr="-"):
+    """ck (what the unsolicited messages are) and tr (stages at which 'no answer' is played as an answer trickled byte by
+    byte that never completes) concern the harness only: the model sees traffic resp. no complete answer"""
+    return "script:d=0:h=%s:v=%s:sv=%s:c=%s:id=%d:k=%s:x=%s:xo=%d:fin=%d:hg=%s:chat=%s:p=%s:ck=%s:tr=%s" % (
+        h, v, sv, c, id, k, x, xo, fin, hg, chat, p, ck, tr)
+
+
+def script_fields(mode):
+    return dict(f.split("=", 1) for f in mode.split(":")[1:])
+
+
+def is_script(mode):
+    return mode.startswith("script:")
+
+
+def script_chats(mode):
+    f = script_fields(mode)
+    return f["p"] != "-" or f["chat"] != "-"
+
+
+def script_identifies(mode):
+    """did the host send an Identification in a positive answer to GET_READER_CONFIG (whether or not in time)"""
+    f = script_fields(mode)
+    return f["id"] == "1" and f["c"].endswith("+") and f["h"].endswith("+") and f["v"].endswith("+") and \
+        (f["sv"] == "n" or f["sv"].endswith("+"))
+
+
+def model_beh(mode):
+    return mode if is_script(mode) else MODEL_BEH[mode]
+
+
+def may_be_reported(mode):
+    if is_script(mode):
+        return script_identifies(mode)
+    return MODEL_BEH[mode] == "answer" or mode in IDENTIFIED_STALLERS
+
+
+def allowed_names(h):
+    """names under which the property allows host h to be reported"""
+    full, nocaps = spec_name(h["v"], h["m"], h["t"], h["rid"]), spec_name(0, 0, h["t"], h["rid"])
+    if is_script(h["mode"]):
+        return [full, nocaps] if script_fields(h["mode"])["k"].endswith("+") else [nocaps]
+    return [full] if IDENTIFIED_STALLERS.get(h["mode"], True) else [nocaps]
+
+
+def named_scripts(r, chat):
+    """(name, script): every stage at which a host can stall or refuse, each one silent and chatty (KeepAlives,
+    resp. KeepAlives / reader events / reports in turn, every [chat] ms), plus slow-but-correct hosts, hosts that
+    chat for a while and then fall silent, and hosts that hang up"""
+    out = []
+    stages = [("stall-neg", dict(v="-")), ("stall-setver", dict(sv="-")), ("refuse-setver", dict(sv="0-")),
+              ("stall-config", dict(c="-")), ("stall-caps", dict(k="-")),
+              ("refuse-config", dict(c="0-")), ("refuse-caps", dict(k="0-")),
+              ("ignore-close", dict(x="-", fin=0)), ("reject-close", dict(x="0-", xo=0, fin=0)),
+              ("wrong-close", dict(x="0-", xo=1, fin=0)), ("noclose", dict(x="0+", fin=0)),
+              ("late-close-reject", dict(x="%d-" % (2 * r), xo=0, fin=0))]
+    for name, kw in stages:
+        out.append((name, script(**kw)))
+        out.append((name + "+ka", script(p=str(chat), ck="ka", **kw)))
+        out.append((name + "+mix", script(p=str(chat), ck="mix", **kw)))
+    # no complete answer, but bytes keep coming: an answer trickled byte by byte that never completes
+    for name, kw in [("trickle-hello", dict(h="-", tr="h")), ("trickle-version", dict(v="-", tr="v")), ("trickle-setver", dict(sv="-", tr="s")),
+                     ("trickle-config", dict(c="-", tr="c")), ("trickle-caps", dict(k="-", tr="k")),
+                     ("trickle-close", dict(x="-", fin=0, tr="x"))]:
+        out.append((name, script(**kw)))
+    slow = "%d+" % (r // 4)
+    out.append(("slow+ka", script(h=slow, v=slow, sv=slow, c=slow, k=slow, x=slow, p=str(chat))))
+    out.append(("slow", script(h=slow, v=slow, sv=slow, c=slow, k=slow, x=slow)))
+    # an answer later than the read deadline: lost on a silent connection, received on a chatty one
+    out.append(("late-config", script(c="%d+" % (2 * r))))
+    out.append(("late-config+ka", script(c="%d+" % (2 * r), p=str(chat))))
+    # chats for a while, then falls silent: cut off by the read deadline after the last message
+    burst = "_".join(str(chat * i) for i in range(1, 11))
+    out.append(("stall-config+burst", script(c="-", chat=burst)))
+    out.append(("reject-close+burst", script(x="0-", fin=0, chat=burst)))
+    # hangs up while chatting / after refusing to close
+    out.append(("stall-config+ka+hangup", script(c="-", p=str(chat), hg=str(3 * r))))
+    out.append(("ignore-close+ka+hangup", script(x="-", fin=0, p=str(chat), hg=str(3 * r))))
+    # no identification in a positive answer, chatty, refuses to close: must not be reported
+    out.append(("noident+reject-close+ka", script(id=0, x="0-", fin=0, p=str(chat))))
+    return out
+
+
+def random_script(rnd, r, chat):
+    """stage answers: prompt / slow (r/4) / late (2r) / negative / none; traffic: none / chatty / sparse (2r, does not
+    keep the deadline away) / a burst; hang-up: mostly never. Delays keep well away from the timers' boundaries."""
+    def ans(allow_none=True):
+        k = rnd.choice(["0+", "0+", "0+", "%d+" % (r // 4), "%d+" % (2 * r), "0-"] + (["-"] if allow_none else []))
+        return k
+    f = dict(h=rnd.choice(["0+", "0+", "0+", "%d+" % (r // 4), "-", "0-"]), v=ans(), sv=rnd.choice(["n", "n", ans()]),
+             c=ans(), id=rnd.choice([1, 1, 1, 0]), k=ans(), x=ans(), xo=rnd.choice([0, 1]), fin=rnd.choice([0, 1]))
+    tr = rnd.choice(["none", "chatty", "chatty", "chatty", "sparse", "burst"])
+    if tr == "chatty":
+        f.update(p=str(chat), ck=rnd.choice(["ka", "ev", "mix"]))
+    elif tr == "sparse":
+        f.update(p=str(4 * r))
+    elif tr == "burst":
+        f.update(chat="_".join(str(chat * i) for i in range(1, rnd.choice([4, 12, 30]))))
+    if tr == "none" and rnd.random() < 0.5:
+        f.update(tr="hvsckx")      # wherever this script gives no answer, bytes of one trickle in
+    if rnd.random() < 0.15:
+        f.update(hg=str(rnd.choice([r // 2 + 50, 3 * r + 50, 10 * r + 50])))
+    return script(**f)
+
+
 def ip_n(ip):
     p = [int(x) for x in ip.split(".")]
     return p[0] << 24 | p[1] << 16 | p[2] << 8 | p[3]
@@ -171,12 +286,12 @@ class Scenario:
                                              ";".join(hs), ";".join(ds) or "-")
 
     def oracle_req(self, rd):
-        s = "run %d %d %s %d P 1 D %d" % (self.max_ms, self.timeout_ms, rd, SEND_TIMEOUT_MS, len(self.devices))
+        s = "run %d %d %s %d 1 P 1 D %d" % (self.max_ms, self.timeout_ms, rd, SEND_TIMEOUT_MS, len(self.devices))
         for d in self.devices:
             s += " %d %d %s %s" % (ip_n(d["ip"]), PORTNUM[d["port"]], d["state"], hx(d["name"]))
         s += " H %d" % len(self.hosts)
         for h in self.hosts:
-            s += " %d %s %d %d %d %s" % (ip_n(h["ip"]), MODEL_BEH[h["mode"]], h["v"], h["m"], h["t"], hx(h["rid"]))
+            s += " %d %s %d %d %d %s" % (ip_n(h["ip"]), model_beh(h["mode"]), h["v"], h["m"], h["t"], hx(h["rid"]))
         addrs = [ip_n("127.0.%d.%d" % (self.k, i)) for i in range(1, 2 ** (32 - self.prefix) - 1)]
         s += " W 1 %d %s" % (len(addrs), " ".join(str(a) for a in addrs))
         return s
@@ -288,6 +403,20 @@ def scenarios(rnd, thorough):
              mk_host(k, 4, "garbage", rnd), mk_host(k, 5, "correct", rnd), mk_host(k, 6, "refuse", rnd)]
         D = [mk_dev(H[4], "S", "up", True)]
         out.append(Scenario(k, H, D, 6, PROBE_TIMEOUT_MS, 1000, 1000 + allowance + SLACK_MS + (30000 if thorough else 0), "time"))
+    # time: hosts that stay CHATTY while they stall or refuse (unsolicited KeepAlives / events / reports far more often
+    # than the read deadline, so that the deadline never fires): one such host among well-behaved ones ...
+    named = dict(named_scripts(SCRIPT_TIMEOUT_MS, CHAT_MS))
+    chatty_budget = 1000 + 5 * SCRIPT_TIMEOUT_MS + SEND_TIMEOUT_MS + SLACK_MS
+    quick_names = ["reject-close+ka", "stall-config+mix", "ignore-close+ka"]
+    for name in (sorted(n for n in named if "+" in n) if thorough else quick_names):
+        k += 1
+        H = [mk_host(k, 1, "refuse", rnd), mk_host(k, 2, "correct", rnd), mk_host(k, 3, named[name], rnd),
+             mk_host(k, 4, "garbage", rnd), mk_host(k, 5, "correct", rnd), mk_host(k, 6, "refuse", rnd)]
+        out.append(Scenario(k, H, [mk_dev(H[4], "S", "up", True)], 6, SCRIPT_TIMEOUT_MS, 1000, chatty_budget, "time"))
+    # ... and a /28 of chatty hosts that refuse to close, two workers
+    k += 1
+    H = [mk_host(k, i, named[rnd.choice(["reject-close+ka", "wrong-close+mix", "noclose+ka"])], rnd) for i in range(1, 15)]
+    out.append(Scenario(k, H, [], 2, SCRIPT_TIMEOUT_MS, 3000, 3000 + 5 * SCRIPT_TIMEOUT_MS + SEND_TIMEOUT_MS + SLACK_MS, "time", prefix=28))
     return out
 
 
@@ -298,7 +427,7 @@ class DiscoverScenario:
     def __init__(self, subnets, async_limit, probe_s, max_s, default_mode, hosts, late_slack_ms=700):
         self.subnets, self.async_limit, self.probe_s, self.max_s = subnets, async_limit, probe_s, max_s
         self.default_mode, self.hosts, self.late_slack_ms = default_mode, hosts, late_slack_ms
-        self.budget_ms = max_s * 1000 + probe_s * 1000 + SEND_TIMEOUT_MS + SLACK_MS
+        self.budget_ms = max_s * 1000 + probe_s * 1000 * (5 if is_script(default_mode) else 1) + SEND_TIMEOUT_MS + SLACK_MS
 
     def go_req(self):
         hs = ["%s,%s,%d,%d,%d,%s" % (h["ip"], h["mode"], h["v"], h["m"], h["t"], hx(h["rid"])) for h in self.hosts]
@@ -332,10 +461,18 @@ def discover_scenarios(rnd, thorough):
     # no maximum configured (0): two small subnets of hosts that close at once, a reader and a host without identification
     out.append(DiscoverScenario(["127.3.0.0/29", "127.3.1.0/30"], 50, 1, 0, "close",
                                 [dhost(3, 0, 3, "correct", rnd), dhost(3, 1, 2, "noident", rnd), dhost(3, 0, 5, "correct-v11", rnd)]))
-    a = 3
+    # every host completes the exchange, refuses CLOSE_CONNECTION and keeps sending KeepAlives (read deadline 1 s, a
+    # KeepAlive every 200 ms); none of them sends an Identification
+    named = dict(named_scripts(1000, 200))
+    out.append(DiscoverScenario(["127.4.0.0/26"], 4, 1, 1, named["reject-close+ka"], [dhost(4, 0, 1, "correct", rnd)]))
+    a = 4
     for _ in range(12 if thorough else 4):
         a += 1
-        mode = rnd.choice(["silent", "stall-caps", "stall-config", "partial-hello", "stall-payload", "noclose", "garbage", "close"])
+        # (chatty defaults besides the fixed scenario above only in the thorough tier: on a tree where they block, each
+        # costs the whole allowance, and these scenarios run one after the other)
+        mode = rnd.choice(["silent", "stall-caps", "stall-config", "partial-hello", "stall-payload", "noclose", "garbage", "close"] +
+                          ([named["wrong-close+mix"], named["noclose+ka"], named["reject-close+mix"], named["late-close-reject+ka"],
+                            named["stall-config+ka"], named["ignore-close+ka"]] if thorough else []))
         nsub = rnd.choice([1, 1, 2])
         subnets = ["127.%d.%d.0/%d" % (a, 2 * i, rnd.choice([23, 24, 24, 25])) for i in range(nsub)]
         hosts = [dhost(a, 0, c, rnd.choice(["correct", "correct", "noident", "correct-errver"]), rnd) for c in rnd.sample(range(1, 6), rnd.choice([0, 1, 2]))]
@@ -422,7 +559,8 @@ def run(tier, seed, replay=None):
     res.assumptions = vlib.TRUSTED_COMMON + [
         "reader ids, firmware strings, vendor/model numbers arrive in probe as the scripted reader sent them (pkg/llrp decoding is C01/C02's subject); the scripted reader builds its frames with its own code",
         "EdgeX SDK calls (Devices, GetDeviceByName, UpdateDevice) return promptly; the SDK is a mock in the harness",
-        "time: the Coq theorem is over abstract timers (probe_time/run_time); wall-clock is measured by the harness against 'max duration + probe timeout + sendTimeout (20 s, the exchange budget the code sets itself) + 5 s slack', not proved",
+        "time: the Coq theorem is over abstract timers (probe_time/run_time) and over all host scripts (Discover/Run.v script_outcome: answers, delays, unsolicited traffic, hang-up); wall-clock is measured by the harness against 'max duration + probe timeout + sendTimeout (20 s, the exchange budget the code sets itself) [+ 4 read deadlines for scripted hosts] + 5 s slack', not proved",
+        "the script semantics of one probe (which timer ends which wait; the read loop re-arms its deadline at every complete message; after a CLOSE_CONNECTION_RESPONSE a failing read no longer ends the read loop) is a model of pkg/llrp's Connect/Shutdown/Close written by hand; it is validated by playing the same scripts against the Go code (result class and blocked/returned compared, times recorded)",
         "dial time-outs (unreachable hosts) are not reproduced on loopback; net.DialTimeout is trusted to honour its timeout",
         "Go map semantics of makeDeviceMap (later device with the same address wins) as modelled by make_device_map",
     ]
@@ -445,12 +583,16 @@ def run(tier, seed, replay=None):
         scens = [Scenario.from_json(s) for s in rp.get("scenarios", []) if "devices" in s]
         dscens = [DiscoverScenario.from_json(x) for x in rp.get("discover", [])]
         probe_budget = rp.get("probe_budget_ms", PROBE_TIMEOUT_MS + SEND_TIMEOUT_MS + SLACK_MS)
+        pscripts = [tuple(x) for x in rp.get("scripts", [])]
     else:
         ncases = naming_cases(rnd, thorough)
         pmodes = list(PROBE_MODES)
         scens = scenarios(rnd, thorough)
         dscens = discover_scenarios(rnd, thorough)
         probe_budget = PROBE_TIMEOUT_MS + SEND_TIMEOUT_MS + SLACK_MS + (30000 if thorough else 0)
+        pscripts = named_scripts(SCRIPT_TIMEOUT_MS, CHAT_MS)
+        pscripts += [("random-%d" % i, random_script(rnd, SCRIPT_TIMEOUT_MS, CHAT_MS)) for i in range(150 if thorough else 30)]
+    script_budget = 5 * SCRIPT_TIMEOUT_MS + SEND_TIMEOUT_MS + SLACK_MS
 
     go_reqs, orc_reqs = [], []
     for c in ncases:
@@ -459,18 +601,29 @@ def run(tier, seed, replay=None):
         orc_reqs.append(o)
     for (mode, beh, want) in pmodes:
         go_reqs.append("probe %s %d %d" % (mode, PROBE_TIMEOUT_MS, probe_budget))
+    for (name, sc) in pscripts:
+        go_reqs.append("probe %s %d %d" % (sc, SCRIPT_TIMEOUT_MS, script_budget))
     for s in scens:
         go_reqs.append(s.go_req())
         orc_reqs.append(s.oracle_req("-"))
-        orc_reqs.append(s.oracle_req(str(PROBE_TIMEOUT_MS)))
+        orc_reqs.append(s.oracle_req(str(s.timeout_ms)))
     for ds in dscens:
         go_reqs.append(ds.go_req())
     # the timing model's prediction for single probes, both timer settings
     for (mode, beh, want) in pmodes:
         for rd in ("-", str(PROBE_TIMEOUT_MS)):
-            orc_reqs.append("run 1000 %d %s %d P 1 D 0 H 1 1 %s 25882 2001002 0 001625123456 W 1 1 1" % (PROBE_TIMEOUT_MS, rd, SEND_TIMEOUT_MS, beh))
+            orc_reqs.append("run 1000 %d %s %d 1 P 1 D 0 H 1 1 %s 25882 2001002 0 001625123456 W 1 1 1" % (PROBE_TIMEOUT_MS, rd, SEND_TIMEOUT_MS, beh))
+    # scripts: the model as the code is (read deadline = probe timeout, forced Close after a failed Shutdown), the same
+    # with the deadline 15 % shorter / longer (is the outcome robust against timing?), without the forced Close, and
+    # without a read deadline
+    R = SCRIPT_TIMEOUT_MS
+    SCRIPT_SETTINGS = [("code", str(R), 1), ("short", str(R * 85 // 100), 1), ("long", str(R * 115 // 100), 1),
+                       ("no-forced-close", str(R), 0), ("no-read-deadline", "-", 1)]
+    for (name, sc) in pscripts:
+        for (_, rd, fc) in SCRIPT_SETTINGS:
+            orc_reqs.append("run 1000 %d %s %d %d P 1 D 0 H 1 1 %s 25882 2001002 0 001625123456 W 1 1 1" % (R, rd, SEND_TIMEOUT_MS, fc, sc))
 
-    longest = max([probe_budget] + [s.budget_ms for s in scens] + [sum(d.budget_ms + 45000 for d in dscens)]) / 1000.0
+    longest = max([probe_budget, script_budget] + [s.budget_ms for s in scens] + [sum(d.budget_ms + 45000 for d in dscens)]) / 1000.0
     go_lines, glog, supervised = run_supervised(exe, go_reqs, int(longest + 240))
     rc = 0
     if supervised:
@@ -578,33 +731,115 @@ def run(tier, seed, replay=None):
             if want == "err" and cls == "ok":
                 res.violation("unidentified-reported", "probe reported a device for a host behaving as '%s'" % mode, rd)
             elif want == "ok" and cls != "ok":
-                res.violation("probe-fails-on-identifying-reader", "probe failed against a reader answering correctly ('%s')" % mode, rd, False)
+                # a correct reader not found within a 300 ms probe time-out: perhaps the machine was busy — re-run alone first
+                rc2, again, _ = vlib.run_harness(exe, "TestVerifC17", "probe %s %d %d\n" % (mode, PROBE_TIMEOUT_MS, probe_budget),
+                                                 timeout=int(probe_budget / 1000 + 120), tag="_retry_probe")
+                if rc2 == 0 and len(again) == 1 and again[0].split()[:2] == ["returned", "ok"]:
+                    res.notes.append("probe '%s' failed in the batch (%s), succeeded when re-run alone (%s)" % (mode, g, again[0].strip()))
+                else:
+                    res.violation("probe-fails-on-identifying-reader", "probe failed against a reader answering correctly ('%s'), also when re-run alone" % mode, rd, False)
             if el > allowance + SLACK_MS:
                 res.violation("probe-exceeds-allowance:" + mode, "probe against a '%s' host took %d ms (timeout %d ms + sendTimeout %d ms + slack)" % (
                     mode, el, PROBE_TIMEOUT_MS, SEND_TIMEOUT_MS), rd)
         if mode == "stall-neg" and len(samples) < 8:
             samples.append(dict(request=go_reqs[gi - 1], go=g))
 
+    # ---------------- single probes against hosts given as scripts
+    go_script_lines = go_lines[gi:gi + len(pscripts)]
+    gi += len(pscripts)
+
+    def model_of(line):
+        d = kv("x " + line.strip())
+        return ("never" if d.get("time") == "never" else int(d.get("time", "-1")), "ok" if d.get("reported") else "err")
+
+    n_runs_before_scripts = 2 * len(scens) + 2 * len(pmodes)
+    script_model = {}
+    base = len(ncases) + n_runs_before_scripts
+    for j, (name, sc) in enumerate(pscripts):
+        script_model[name] = dict((SCRIPT_SETTINGS[i][0], model_of(olines[base + j * len(SCRIPT_SETTINGS) + i])) for i in range(len(SCRIPT_SETTINGS)))
+    script_allowance = 5 * SCRIPT_TIMEOUT_MS + SEND_TIMEOUT_MS
+    blocked_scripts, mismatches, script_obs = [], [], {}
+    for (name, sc), g in zip(pscripts, go_script_lines):
+        g = g.strip()
+        evals += 1
+        fam = "chatty" if script_chats(sc) else "silent"
+        dist["probe-script:" + fam] = dist.get("probe-script:" + fam, 0) + 1
+        nontriv.add(("script", sc))
+        md = script_model[name]
+        script_obs[name] = dict(script=sc, go=g, model=md["code"])
+        rd = dict(kind="probe-script", scripts=[[name, sc]], observed=g, model=md)
+        f = g.split()
+        if f[0] in ("panic", "crashed"):
+            res.violation("probe-panics:host=script", "probe() against the host script '%s' (%s) %s: %s" % (
+                name, sc, "panicked" if f[0] == "panic" else "killed the process", g.split(" ", 1)[1]), rd)
+        elif f[0] == "harness-error":
+            res.violation("harness-run", "probe scenario did not start: " + g, rd, False)
+        elif f[0] == "blocked":
+            blocked_scripts.append((name, sc, g))
+        else:
+            cls, el = f[1], int(f[2])
+            if cls == "ok" and not script_identifies(sc):
+                res.violation("unidentified-reported", "probe reported a device for the host script '%s' (%s), which sends no Identification in a positive answer" % (name, sc), rd)
+            if el > script_allowance + SLACK_MS:
+                res.violation("probe-exceeds-allowance:script", "probe against the host script '%s' (%s) took %d ms (allowance: timeout %d ms + sendTimeout %d ms + 4 read deadlines + slack)" % (
+                    name, sc, el, SCRIPT_TIMEOUT_MS, SEND_TIMEOUT_MS), rd)
+            if md["code"][0] == "never":
+                res.violation("model-differs:probe-script", "the model (read deadline, forced Close) says the probe never returns for '%s' (%s): contradicts C17_probe_bounded_all_scripts" % (name, sc), rd, False)
+            elif len(set(md[k][1] for k in ("code", "short", "long"))) == 1 and cls != md["code"][1]:
+                mismatches.append((name, sc, g))      # outcome robust in the model, different in Go: re-run alone first
+    if mismatches:
+        rc2, again, _ = vlib.run_harness(exe, "TestVerifC17", "\n".join("probe %s %d %d" % (sc, SCRIPT_TIMEOUT_MS, script_budget) for _, sc, _ in mismatches) + "\n",
+                                         timeout=int(script_budget / 1000 + 120), tag="_retry")
+        for (name, sc, g), g2 in zip(mismatches, again if rc2 == 0 and len(again) == len(mismatches) else [m[2] for m in mismatches]):
+            f2 = g2.split()
+            if len(f2) > 1 and f2[0] == "returned" and f2[1] == script_model[name]["code"][1]:
+                res.notes.append("script '%s': result class differed from the model in the batch (%s), agreed when re-run alone (%s)" % (name, g, g2.strip()))
+                continue
+            res.violation("model-differs:probe-script", "probe against the host script '%s' (%s): Go %s, the model (time, class) %s" % (
+                name, sc, g2.strip(), script_model[name]["code"]), dict(kind="probe-script", scripts=[[name, sc]], observed=g2.strip(), model=script_model[name]), False)
+    for sig, fam, why in ((SIG_CHATTY, True, "a host that keeps sending unsolicited messages (KeepAlives, events, reports) more often than the probe's read deadline, "
+                           "so that the deadline never fires, and stalls / refuses or ignores CLOSE_CONNECTION blocks probe() for ever: nothing closes the probe's client"),
+                          (SIG_SILENT, False, "a host that stops talking without closing the connection blocks probe() for ever")):
+        bl = [(n, sc, g) for (n, sc, g) in blocked_scripts if script_chats(sc) == fam]
+        if bl:
+            res.violation(sig, "%s. probe(timeout %d ms) had not returned after %d ms (timeout + sendTimeout %d ms + 4 read deadlines + slack) for the host scripts: %s" % (
+                why, SCRIPT_TIMEOUT_MS, script_budget, SEND_TIMEOUT_MS, "; ".join("%s = %s" % (n, sc) for n, sc, _ in bl[:12]) + (" ... (%d in all)" % len(bl) if len(bl) > 12 else "")),
+                dict(kind="probe-script", scripts=[[n, sc] for n, sc, _ in bl], observed=dict((n, g) for n, _, g in bl),
+                     model=dict((n, script_model[n]) for n, _, _ in bl)))
+    # which setting of the model describes the implementation (information only)
+    go_blocked = set(n for n, _, _ in blocked_scripts)
+    match = [k for (k, _, _) in SCRIPT_SETTINGS if k not in ("short", "long") and
+             set(n for n, _ in pscripts if script_model[n][k][0] == "never") == go_blocked]
+    res.notes.append("host scripts: %d played (%d with unsolicited traffic); blocked in Go: %s; model settings predicting exactly this set: %s" % (
+        len(pscripts), sum(1 for _, sc in pscripts if script_chats(sc)), sorted(go_blocked) or "none", match or "none"))
+    tdiff = []
+    for (name, sc), g in zip(pscripts, go_script_lines):
+        f = g.split()
+        if f[0] == "returned" and script_model[name]["code"][0] != "never":
+            tdiff.append((int(f[2]) - script_model[name]["code"][0], name))
+    if tdiff:
+        res.notes.append("host scripts: Go elapsed minus model time (ms): min %d (%s), max %d (%s)" % (min(tdiff) + max(tdiff)))
+
     # ---------------- runs
     blocked_runs = []
-    for s in scens:
-        g = go_lines[gi].strip()
-        gi += 1
-        o_none, o_some = olines[oi].strip(), olines[oi + 1].strip()
-        oi += 2
-        evals += 1
-        dist["run:" + s.kind] = dist.get("run:" + s.kind, 0) + 1
-        nontriv.add(("run", s.k, s.go_req()))
+
+    class Sink:
+        """findings of one scenario, kept back until it is known whether they survive a re-run of the scenario alone"""
+        def __init__(self):
+            self.violations = []
+
+        def violation(self, sig, what, rd, found=True):
+            self.violations.append((sig, what, rd, found))
+
+    def judge_run(s, g, o_some, res):
         rd = dict(kind="run", scenarios=[s.to_json()], observed=g, model=o_some)
-        if len(samples) < 11 and s.kind == "sets":
-            samples.append(dict(request=s.go_req(), go=g, model=o_some))
         if g.startswith("crashed "):
             res.violation("run-panics", "autoDiscover on %s killed the process: %s; hosts: %s" % (s.net, g.split(" ", 1)[1], "; ".join(
                 "%s %s vendor=%d model=%d idType=%d readerID=%s" % (h["ip"], h["mode"], h["v"], h["m"], h["t"], hx(h["rid"])) for h in s.hosts)), rd)
-            continue
+            return
         if g.startswith("harness-error"):
             res.violation("harness-run", "run scenario did not start: " + g, rd, False)
-            continue
+            return
         r = parse_run(g)
         by_ip = {h["ip"]: h for h in s.hosts}
         nviol = len(res.violations)
@@ -627,24 +862,21 @@ def run(tier, seed, replay=None):
         # (b) only hosts that identified themselves are reported, under the name the rule gives
         for ip, names in r["reported"].items():
             h = by_ip.get(ip)
-            if h is None or (MODEL_BEH[h["mode"]] != "answer" and h["mode"] not in IDENTIFIED_STALLERS):
+            if h is None or not may_be_reported(h["mode"]):
                 res.violation("unidentified-reported", "host %s (behaviour %s) was reported as %r" % (ip, h and h["mode"], names), rd)
                 continue
-            if IDENTIFIED_STALLERS.get(h["mode"], True):
-                want = spec_name(h["v"], h["m"], h["t"], h["rid"])
-            else:
-                want = spec_name(0, 0, h["t"], h["rid"])
-            if names != [want]:
-                res.violation("name-wrong:run", "host %s reported as %r, the rule gives %r" % (ip, names, want), rd)
+            want = allowed_names(h)
+            if len(names) != 1 or names[0] not in want:
+                res.violation("name-wrong:run", "host %s reported as %r, the rule gives %r" % (ip, names, want[0]), rd)
         # (c) time
         if r["status"] == "blocked":
             stallers = [h["mode"] for h in s.hosts if h["mode"] in STALL_MODES and h["mode"] != "stall-neg"]
-            if stallers:
+            if stallers and not any(is_script(h["mode"]) for h in s.hosts):
                 blocked_runs.append((s, r, stallers))
             else:
                 res.violation("run-exceeds-max-duration", "autoDiscover(max %d ms, probe timeout %d ms, %d worker(s)) had not returned after %d ms; hosts: %s" % (
                     s.max_ms, s.timeout_ms, s.async_limit, s.budget_ms, ",".join(h["mode"] for h in s.hosts)), rd)
-            continue
+            return
         # (d) correspondence with the model on the sets (only where the deadline plays no part)
         if s.kind == "sets" and len(res.violations) == nviol:
             od = kv("x " + o_some)
@@ -656,6 +888,31 @@ def run(tier, seed, replay=None):
             if g_probed != (m_probed & listening) or g_disc != m_disc:
                 res.violation("model-differs:run", "Go and the model differ on dialled/discovered sets though the property holds: go dialled=%s discovered=%s; model dialled=%s discovered=%s" % (
                     sorted(g_probed), g_disc, sorted(m_probed & listening), m_disc), rd, False)
+
+    for s in scens:
+        g = go_lines[gi].strip()
+        gi += 1
+        o_none, o_some = olines[oi].strip(), olines[oi + 1].strip()
+        oi += 2
+        evals += 1
+        dist["run:" + s.kind] = dist.get("run:" + s.kind, 0) + 1
+        nontriv.add(("run", s.k, s.go_req()))
+        if len(samples) < 11 and s.kind == "sets":
+            samples.append(dict(request=s.go_req(), go=g, model=o_some))
+        sink = Sink()
+        judge_run(s, g, o_some, sink)
+        if sink.violations and all(v[0].startswith("model-differs") for v in sink.violations):
+            # Go and the model differ on WHICH hosts were reached / found although the property holds: with probe time-outs of
+            # a few hundred ms that can be the machine being busy. Judged on a re-run of the scenario alone.
+            rc2, again, _ = vlib.run_harness(exe, "TestVerifC17", s.go_req() + "\n", timeout=int(s.budget_ms / 1000 + 120), tag="_retry_run")
+            if rc2 == 0 and len(again) == 1:
+                first = sink.violations
+                sink = Sink()
+                judge_run(s, again[0].strip(), o_some, sink)
+                res.notes.append("run scenario on %s: %s in the batch; re-run alone: %s" % (
+                    s.net, ", ".join(sorted(set(v[0] for v in first))), ", ".join(sorted(set(v[0] for v in sink.violations))) or "agrees with the model"))
+        for v in sink.violations:
+            res.violation(*v)
 
     # ---------------- runs started through Driver.Discover
     for ds in dscens:
@@ -735,13 +992,17 @@ def run(tier, seed, replay=None):
         rule="naming: probe() driven against a scripted reader per case, cases = all (vendor,model) pairs of the table and its neighbours x "
              "few ids + all (id type, reader id of length 0..12: zeros, 0xFF, random) x few (vendor,model) + random combinations + firmware variants + "
              "no-capabilities/no-identification; distinct by the full tuple, non-trivial iff the reader id is non-empty and an Identification is sent. "
-             "probe: one scripted misbehaviour each (distinct by behaviour, all non-trivial). run: autoDiscover on a /29 of scripted loopback hosts with a "
+             "probe: one scripted misbehaviour each (distinct by behaviour, all non-trivial). probe-script: hosts given as SCRIPTS of what "
+             "they send when (answer after a delay / negative answer / none for the first message and each request; unsolicited KeepAlives, "
+             "events, reports periodically far below the read deadline, in a burst, sparsely, or none; hang-up): every stage silent and chatty, "
+             "refused / ignored / wrongly answered CLOSE_CONNECTION, plus random scripts; the same script text is played by the Go harness and "
+             "evaluated by the extracted model (distinct by script). run: autoDiscover on a /29 of scripted loopback hosts with a "
              "mocked SDK device list given in order: 0..4 registered devices per host on the scan port / other ports (with connection-counting "
              "listeners) / without usable address, states Up/Down/Unknown, locked/unlocked, same or different name, both list orders, duplicates "
              "(distinct by the full scenario). discover: Driver.Discover itself with the configuration set (subnets /23../30 played by one "
              "wildcard listener, 1..50 workers, probe 1 s, maximum 0/1/2 s, every host silent/stalling/closing + a few readers): no dial later than "
              "maximum + 0.7 s, return within maximum + allowance, one result list handed to the SDK channel.",
         samples=samples, input_distribution=dist, traces_validated_against_impl=evals,
-        probe_observations=probe_obs, capabilities_without_sensitivity_entries=sorted(set(nosens_obs)),
+        probe_observations=probe_obs, script_observations=script_obs, capabilities_without_sensitivity_entries=sorted(set(nosens_obs)),
         trusted_base=res.assumptions)
     return res.finish()
